@@ -12,7 +12,9 @@ sys.path.insert(0, "/repo/tests")
 logging.disable(logging.CRITICAL)
 
 ET = gtirb.Edge.Type
-ENC = {"nop": b"\x90", "jmp": b"\xe9\0\0\0\0", "jcc": b"\x0f\x85\0\0\0\0", "call": b"\xe8\0\0\0\0", "ret": b"\xc3", "nop2": b"\x66\x90"}
+ENC = {"nop": b"\x90", "jmp": b"\xe9\0\0\0\0", "jcc": b"\x0f\x85\0\0\0\0", "call": b"\xe8\0\0\0\0", "ret": b"\xc3", "nop2": b"\x66\x90",
+       "sys": b"\x0f\x05"}
+TERMINATORS = ("jmp", "jcc", "call", "ret", "sys")
 SYMOFF = {"jmp": 1, "jcc": 2, "call": 1}
 PATCHES = ["nop", "nop\nnop", "xchg %ax, %ax", "jmp {L}", "ret", "call {L}", "jne {L}\nnop", "nop\n.Lt:\nnop\njmp .Lt", "nop\ncall {L}\nnop",
            "nop\nret\nnop", "jne {L}", ".Ls:\ndec %eax\njne .Ls", "jmp .Le\n.string \"hi\"\n.Le:\nnop", ".Lq:\nnop", "call {L}\nxchg %ax, %ax",
@@ -31,7 +33,7 @@ class Case:
     """A module description (pure data), independent of gtirb objects, so that it can be rebuilt identically."""
 
     def __init__(self, rnd, nfun_max=2, with_data=True, with_aux=True, with_cfi=True, mods="ins,del,rep", with_funcs=True, max_mods=3,
-                 closed_tail=False, to_proxy=True, with_lead=False, with_scope=True, with_misc=True, with_ext=False, cfi_patches=False, data_first=0.12, whole_del=0.0, inner_data=0.0):
+                 closed_tail=False, to_proxy=True, with_lead=False, with_scope=True, with_misc=True, with_ext=False, cfi_patches=False, data_first=0.12, whole_del=0.0, inner_data=0.0, orphan_code=0.0, with_syscall=False):
         self.rnd = rnd
         # bytes in front of the first block that belong to no block (the interval starts at 0x1000 - lead, the blocks at 0x1000)
         self.lead = rnd.choice((1, 2, 5)) if with_lead and rnd.random() < 0.12 else 0
@@ -46,12 +48,16 @@ class Case:
             for b in range(nb):
                 n = rnd.randint(0, 2)
                 ins = [(rnd.choice(["nop", "nop", "nop2"]), None)] * n
-                term = rnd.choice(["nop", "jmp", "jcc", "call", "ret", "ret"])
+                term = rnd.choice(["nop", "jmp", "jcc", "call", "ret", "ret"] + (["sys"] if with_syscall else []))
                 ins = ins + [(term, None)]
                 layout.append(dict(kind="c", ins=ins, func=f if f < nfun else None, fb=b))
                 if with_data and b + 1 < nb and inner_data and rnd.random() < inner_data:
                     # data between the blocks of a function (a jump table, a literal pool)
                     layout.append(dict(kind="d", data=bytes(rnd.randrange(256) for _ in range(rnd.randint(1, 4))), func=None))
+            if orphan_code and f < nfun and rnd.random() < orphan_code:
+                # code that belongs to no function, behind a function
+                for _ in range(rnd.randint(1, 2)):
+                    layout.append(dict(kind="c", ins=[(rnd.choice(["nop", "nop2"]), None)] * rnd.randint(0, 2) + [(rnd.choice(["nop", "ret", "jmp"]), None)], func=None, fb=None))
             if with_data and rnd.random() < 0.3:
                 if rnd.random() < 0.5:
                     # words with symbolic expressions (filled in below): modifications stay on word boundaries
@@ -308,6 +314,10 @@ def build(case):
             add_edge(ir.cfg, gbs[i], gbs[t], ET.Branch)
         if k == "jcc":
             add_edge(ir.cfg, gbs[i], gbs[t], ET.Branch, conditional=True)
+            if n is not None:
+                add_edge(ir.cfg, gbs[i], n, ET.Fallthrough)
+        if k == "sys":
+            add_edge(ir.cfg, gbs[i], add_proxy_block(m), ET.Syscall)
             if n is not None:
                 add_edge(ir.cfg, gbs[i], n, ET.Fallthrough)
         if k == "call":
